@@ -195,6 +195,64 @@ def guarded(violations, spec, fn, *a, **k):
         return 0
 
 
+def long_lived_case(rng, counters, violations):
+    """ONE Optimize object used for a long session: dozens of solve() calls that fail (inconsistent targets), with tag() /
+    step() / enable-disable in between, so that the log grows to well over a thousand rows.  After EVERY failing solve the
+    knobs and flags are those of iteration 0 of the log -- the point recorded at construction, kept here independently -- and
+    iteration 0 of the log still records exactly that."""
+    n = rng.randrange(2, 4)
+    m = n + rng.randrange(1, 3)
+    spec = optmon.gen_problem(rng, families=("incons",))
+    A = [[rng.uniform(-2, 2) for _ in range(n)] for _ in range(m)]
+    A[-1] = list(A[0])                                     # two targets ask the same combination for different values
+    spec.update({"n": n, "m": m, "kind": "incons", "A": A, "shift": [2.0] * m, "x0": [rng.uniform(-0.5, 0.5) for _ in range(n)],
+                 "limits": [(-4.0, 4.0)] * n, "max_step": [None] * n, "wv": [rng.choice([1.0, 1.0, 0.25])] * n, "wt": [1.0] * m, "tol": [1e-9] * m,
+                 "dis_v": [False] * n, "dis_t": [False] * m, "n_steps_max": rng.choice([20, 25, 40]), "broyden": False, "step": 1e-7})
+    spec["tars"] = [float(v) for v in (np.array(A) @ np.array([0.3] * n))]
+    spec["tars"][-1] += 1.0
+    S = optmon.Setup(spec)
+    unit = all(w == 1.0 for w in spec["wv"])
+    k0 = [float(v) for v in S.knobs()]
+    f0 = S.flags()
+    r0 = row0(S.opt)
+
+    def close(a, b):
+        return a == b or (not unit and abs(a - b) <= 4 * np.finfo(float).eps * max(abs(a), abs(b)))
+    rows = 0
+    for call in range(rng.randrange(55, 75)):
+        extra = rng.random()
+        try:
+            if extra < 0.2:
+                S.opt.tag("t%d" % call)
+            elif extra < 0.35:
+                S.opt.step(2)
+            elif extra < 0.45 and spec["m"] > 2:
+                S.opt.disable(target=[1])
+                S.opt.enable(target=[1])
+        except Exception:
+            pass
+        try:
+            S.opt.solve()
+            counters["long_lived_solves_returned"] = counters.get("long_lived_solves_returned", 0) + 1
+            continue
+        except Exception as exc:
+            if isinstance(exc, (NameError, AttributeError, UnboundLocalError, TypeError, IndexError, KeyError)):
+                violations.append({"what": "C09 long-lived optimizer: solve() call %d raised %s: %s" % (call, type(exc).__name__, str(exc)[:150]), "spec": spec})
+                return
+        counters["long_lived_failed_solves_checked"] = counters.get("long_lived_failed_solves_checked", 0) + 1
+        rows = len(S.opt._log["penalty"])
+        now, fl = [float(v) for v in S.knobs()], S.flags()
+        rr = row0(S.opt)
+        if not all(close(a, b) for a, b in zip(now, k0)) or [list(x) for x in fl] != [list(x) for x in f0]:
+            violations.append({"what": "C09 long-lived optimizer (%d log rows): after failing solve() call %d the knobs / flags are %s %s, iteration 0 recorded at construction is %s %s" % (
+                rows, call, now, fl, k0, f0), "spec": spec})
+            return
+        if not all(close(a, b) for a, b in zip(rr[0], r0[0])) or rr[1:] != r0[1:]:
+            violations.append({"what": "C09 long-lived optimizer (%d log rows): iteration 0 of the log now reads %s, at construction it read %s" % (rows, rr, r0), "spec": spec})
+            return
+    counters["long_lived_max_log_rows"] = max(counters.get("long_lived_max_log_rows", 0), rows)
+
+
 def run_shard(spec_):
     rng = random.Random("C09:%s:%s" % (spec_["seed"], spec_["shard"]))
     optmon.quiet()
@@ -205,6 +263,8 @@ def run_shard(spec_):
         check_solve(w["spec"], counters, violations, w.get("fault_at"), w.get("persistent", False), w.get("tighten", False),
                     w.get("clear", True), w.get("second"), w.get("presteps"))
         return {"evaluations": 1, "digests": [], "samples": [], "counters": counters, "violations": violations, "known": []}
+    for _ in range(spec_.get("long_lived", 2)):
+        guarded(violations, {"long_lived": True}, long_lived_case, random.Random(rng.random()), counters, violations)
     for p in range(spec_["problems"]):
         spec = optmon.gen_problem(rng, families=("lin", "quad", "trig", "pole", "incons", "rankdef", "pinned"))
         spec["split_actions"] = rng.random() < 0.35       # one action object per target instead of one for all
